@@ -16,6 +16,16 @@ def run(ctx):
                    expect_violations=("TruncatedIsRestriction", "Additive"), coverage=False)
     if not r.inv_violations:
         ctx.note("model self-test failed: Measure pinned zero rule")
+    # unbounded: Apalache proves the clipping lemmas for ALL integer end points (hence, the operators being max / min /
+    # comparisons only, for all real ones): clipped pair = intersection, nested wrappers = intersection of the windows
+    from .. import apalache as A
+    for inv in ("ClipLemma", "NestLemma"):
+        ok, wall, tail = A.check("MC_MeasureClip", "AnyInit", inv, 0, f"clip_{inv}")
+        ctx.runs.append({"label": f"apalache MC_MeasureClip: {inv} for all integers", "kind": "inductive-invariant", "wall_s": round(wall, 1), "holds": ok})
+        if not ok:
+            ctx._report("design", inv, "design:MC_MeasureClip:apalache", None, None,
+                        {"property": ctx.pid, "kind": "design", "module": "MC_MeasureClip", "cfg": f"--init=AnyInit --inv={inv} --length=0",
+                         "invariant": inv, "tlc_tail": tail})
     tf = ctx.trace_path("measure")
     ctx.drive("measure_run", [tf, ctx.tier, ctx.seed])
     ctx.validate("Trace_Measure", "Trace_Measure.cfg", tf)
